@@ -3,7 +3,9 @@
 stdin : one JSON case per line
   {"backend": "threading"|"loky"|"multiprocessing"|"sequential", "n_jobs": int, "batch_size": int|"auto",
    "pre_dispatch": .., "return_as": "list"|"generator"|"generator_unordered", "N": int, "tfail": [..],
-   "ifail": int|null, "reuse": int (calls on the same object), "with_block": bool, "seed": int}
+   "ifail": int|null, "reuse": int (calls on the same object), "with_block": bool, "seed": int, "verbose": int}
+(progress messages of verbose > 0 go to stderr/stdout of this process and are discarded by the harness: only lines
+starting with "{" are results)
 stdout: one JSON result per line
 """
 import json
@@ -14,6 +16,11 @@ import tempfile
 import time
 
 from joblib import Parallel, delayed
+
+# results go to the original stdout; whatever joblib prints (verbose > 0, also from worker processes) goes to stderr
+OUT = os.fdopen(os.dup(1), "w")
+os.dup2(2, 1)
+sys.stdout = sys.stderr
 
 
 class TaskFail(ValueError):
@@ -54,7 +61,7 @@ def run(c):
     rng = random.Random(c.get("seed", 0))
     logdir = tempfile.mkdtemp(prefix="verif-m1real-")
     kw = dict(n_jobs=c["n_jobs"], batch_size=c["batch_size"], pre_dispatch=c["pre_dispatch"],
-              return_as=c["return_as"])
+              return_as=c["return_as"], verbose=c.get("verbose", 0))
     if c["backend"] != "default":
         kw["backend"] = c["backend"] if c["backend"] != "sequential" else "sequential"
     p = Parallel(**kw)
@@ -93,5 +100,5 @@ for line in sys.stdin:
     except BaseException as e:  # noqa
         import traceback
         r = {"harness_error": repr(e), "tb": traceback.format_exc()}
-    sys.stdout.write(json.dumps(r) + "\n")
-    sys.stdout.flush()
+    OUT.write(json.dumps(r) + "\n")
+    OUT.flush()
